@@ -354,6 +354,28 @@ where
     pointer
 }
 
+/// Verification hook (only with `--cfg similar_verif`): one call of
+/// `shift_diff_ops_up` / `shift_diff_ops_down`, returning the new pointer.
+#[cfg(similar_verif)]
+pub fn verif_shift_diff_ops<Old, New>(
+    up: bool,
+    ops: &mut Vec<DiffOp>,
+    old: &Old,
+    new: &New,
+    pointer: usize,
+) -> usize
+where
+    Old: Index<usize> + ?Sized,
+    New: Index<usize> + ?Sized,
+    New::Output: PartialEq<Old::Output>,
+{
+    if up {
+        shift_diff_ops_up(ops, old, new, pointer)
+    } else {
+        shift_diff_ops_down(ops, old, new, pointer)
+    }
+}
+
 /// Verification hook (only with `--cfg similar_verif`): when the repair switch
 /// is on, recomputes the carried indices of a Delete/Insert pair that has just
 /// been swapped (`ops[first]`, `ops[first + 1]`).
